@@ -1,5 +1,6 @@
 import HapVerif.Model.C18
 import HapVerif.Model.C18Hist
+import HapVerif.Model.C18Gw
 import HapVerif.Generated.Facts
 import HapVerif.Drv.Common
 /-!
@@ -10,6 +11,10 @@ Driver of C18.  Case lines (see harness/cmd/hv/c18.go):
   `C18 hist <glob> <ing>[,<ing>...] <batch>[/<batch>...] => <path>|...||<binds>||<dirty>/...[||cfg=<binds>]`
       a full sync + HAProxyUpdate (commit), then one PARTIAL sync per batch (ops `a:<ing>`, `d:<k>`,
       `u:<k>:<ing>`, `,`-joined); the path records are those of the ingresses alive at the end
+  `C18 gw <glob> <gws> <svcs> <routes> <ings> => K=<backend>@<host>#<path>;<path>|...||<binds>`
+      converters.Sync(): Gateway API HTTPRoutes whose Services carry the annotations, then Ingress
+      objects (see harness/cmd/hv/c18gw.go); the visits of the gateway converter (`simulate`) and what
+      the Service annotations mean at that point of the sync (`gwUrl`, `gwOAuth`) are derived here
 
 The abstraction of the concrete annotation values of the harness grammar (what each auth-url means
 to `setAuthExternal`) is the table `urlOf` below.
@@ -26,6 +31,18 @@ def currentVariant : Variant :=
   { oauthOwn := Facts.c18OAuthPrecedenceReads == "config" &&
       !Facts.c18OAuthPrecedenceAssigns.contains "path.AuthExternal.AlwaysDeny = false"
     usedFront := Facts.c18SetAuthUsedFrontReads.contains "hpath.AuthExt.AuthBackendName" }
+
+/-- which `buildBackendAuthExternal` the tree under test has (gateway mode): the code configures
+the path record in place under the guard; the other shape known to the model builds a scratch value
+and assigns it unconditionally -/
+def currentAuthStepName : String :=
+  if Facts.c18BackendAuthWrites == ["c.setAuthExternal(config, &path.AuthExternal, url)"] then "authStep"
+  else if Facts.c18BackendAuthWrites == ["c.setAuthExternal(config, &auth, url)", "path.AuthExternal = auth"] then
+    "authStepScratch"
+  else "unknown"
+
+def currentAuthStep : AuthStep :=
+  if currentAuthStepName == "authStepScratch" then authStepScratch else authStep
 
 /-! ### grammar -> abstract values -/
 
@@ -471,6 +488,227 @@ def handleHist (glob ings ops impl : String) : Verdict :=
             | _ => bad "impl-output"
     | _, _ => bad "hist-parse"
 
+
+/-! ### gateway mode: `converters.Sync()` over HTTPRoutes + Ingresses
+
+`simulate` walks the routes the way `syncHTTPRoutes` / `syncRoute` / `syncHTTPRouteGateway` do (routes
+in name order, parentRefs, listeners, rules) and yields the paths `createHTTPHosts` links (a path that
+exists on the host is skipped) and the `ReadAnnotations` calls (`GwVisit`). -/
+
+structure GwSvcTok where
+  idx : Nat
+  url : String
+  plc : String
+  oauth : String
+  signin : String
+
+structure GwRuleTok where
+  mts : List (Nat × Char)
+  svc : Nat
+
+structure GwRouteTok where
+  host : Nat
+  parents : List (Nat × Nat)      -- gateway number, sectionName number (0 = none)
+  rules : List GwRuleTok
+
+/-- a path linked by the gateway converter -/
+structure GwPath where
+  host : Nat
+  path : Nat
+  typ : Char
+  route : Nat      -- 1-based
+  rule : Nat
+  svc : Nat
+  mapped : Bool    -- linked by the visit that created the backend
+deriving Repr, DecidableEq
+
+def parseGwSvc (s : String) : Option GwSvcTok :=
+  match s.splitOn "." with
+  | [i, u, c, o, g] => do pure { idx := ← i.toNat?, url := u, plc := c, oauth := o, signin := g }
+  | _ => none
+
+def parseMatches : List Char → Option (List (Nat × Char))
+  | [] => some []
+  | d :: t :: r => do
+    let n ← (String.singleton d).toNat?
+    if t = 'e' ∨ t = 'p' then (parseMatches r).map ((n, t) :: ·) else none
+  | _ => none
+
+def parseGwRule (s : String) : Option GwRuleTok :=
+  match s.splitOn "~" with
+  | [m, v] => do
+    let ms ← parseMatches m.toList
+    if ms.isEmpty then none else pure { mts := ms, svc := ← v.toNat? }
+  | _ => none
+
+def parseGwParent (s : String) : Option (Nat × Nat) :=
+  match s.splitOn "s" with
+  | [g] => g.toNat?.map (·, 0)
+  | [g, l] => do
+    let l ← l.toNat?
+    if l = 0 then none else pure (← g.toNat?, l)
+  | _ => none
+
+def parseGwRoute (s : String) : Option GwRouteTok :=
+  match s.splitOn "." with
+  | [h, ps, rs] => do
+    pure { host := ← h.toNat?, parents := ← (ps.splitOn "+").mapM parseGwParent,
+           rules := ← (rs.splitOn "/").mapM parseGwRule }
+  | _ => none
+
+def gwBackendId (route rule : Nat) : Nat := 100 + route * 10 + rule
+def gwBackendName (route rule : Nat) : String := "default_r" ++ toString route ++ "__rule" ++ toString rule
+
+structure GwSim where
+  paths : List GwPath := []
+  visits : List GwVisit := []
+  seen : List (Nat × Nat) := []      -- backends created so far
+  pubs : List (Option String) := []  -- per visit: what `findBackend(default, /oauth2)` answers in it
+
+def digitOf (c : Char) : Option Nat := if c.isDigit then some (c.toNat - '0'.toNat) else none
+
+/-- one pass of the rule loop of `syncHTTPRouteGateway` for an accepting listener -/
+def simRule (hostnames : List Nat) (k : Nat) (sim : GwSim) (jr : Nat × GwRuleTok) : GwSim :=
+  let (j, r) := jr
+  let isNew := !sim.seen.contains (k, j)
+  let (paths, idxs) := r.mts.foldl (fun (acc : List GwPath × List Nat) (m : Nat × Char) =>
+    hostnames.foldl (fun (acc : List GwPath × List Nat) (h : Nat) =>
+      if acc.1.any (fun q => q.host == h && q.path == m.1 && q.typ == m.2) then acc
+      else (acc.1 ++ [{ host := h, path := m.1, typ := m.2, route := k, rule := j, svc := r.svc, mapped := isNew }],
+            acc.2 ++ [acc.1.length])) acc) (sim.paths, [])
+  let pub := (paths.find? (·.path = 9)).map fun q => gwBackendName q.route q.rule
+  { paths := paths, visits := sim.visits ++ [⟨gwBackendId k j, if isNew then idxs else []⟩],
+    seen := if isNew then sim.seen ++ [(k, j)] else sim.seen, pubs := sim.pubs ++ [pub] }
+
+def simulate (gws : List (List Char)) (routes : List GwRouteTok) : GwSim :=
+  (routes.zipIdx).foldl (fun sim (rt, k0) =>
+    rt.parents.foldl (fun sim (g, sect) =>
+      match (if g = 0 then none else gws[g - 1]?) with
+      | none => sim        -- `newGatewaySource` finds no such gateway
+      | some ls =>
+        (ls.zipIdx).foldl (fun sim (l, li) =>
+          if (sect ≠ 0 ∧ sect ≠ li + 1) ∨ l = 'n' then sim
+          else
+            let hostnames := match digitOf l with | some d => [d] | none => [rt.host]
+            (rt.rules.zipIdx.map fun (r, j) => (j, r)).foldl (simRule hostnames (k0 + 1)) sim) sim) sim) {}
+
+/-- an auth-url of a Service as the gateway converter's `setAuthExternal` sees it: no service backend
+`<ns>_<name>_<port>` exists yet (the ingress converter, which pre-builds them, runs later) -/
+def gwUrl (xns : Bool) (s : String) : Option UrlAnn :=
+  match urlOf xns s with
+  | some (.val u) => some (.val (if u.proto = .svc then { u with svcFound := false, target := 0 } else u))
+  | x => x
+
+/-- `pub`: id of the backend serving /oauth2 when the annotation is processed -/
+def gwOAuth (pub : Option String) : String → Option OAuthAnn
+  | "-" => some .absent
+  | "o" | "d" =>
+    match pub with
+    | some id => some (.val true true "/oauth2" id)
+    | none => some (.val true false "/oauth2" "")
+  | "m" => some (.val true false "/nope" "")
+  | "u" | "e" => some (.val false false "/oauth2" "")
+  | _ => none
+
+def gwKeyOf (host path : Nat) : Option String :=
+  (pathName path).map fun pn => "h" ++ toString host ++ ".local#" ++ pn
+
+/-- the declared configuration of a path linked by a route: the annotations of the rule's Service -/
+def gwPathIn (xns : Bool) (svcs : List GwSvcTok) (pubAt : Nat → Option String) (sim : GwSim) (q : GwPath)
+    : Option PathIn := do
+  let key ← gwKeyOf q.host q.path
+  let _ ← svcName q.svc
+  let base : PathIn :=
+    { host := q.host, backend := gwBackendId q.route q.rule, ord := q.host * 16 + q.path, key := key,
+      hamatch := if q.typ = 'e' then "str" else "dir", sub := if q.typ = 'e' then key else key ++ "/sub",
+      url := .absent, plc := .absent, oauth := .absent, signin := false }
+  match svcs.find? (·.idx = q.svc) with
+  | none => pure base
+  | some t =>
+    -- the visit that created the backend of the rule is the one in which the annotations are read
+    let vi := (sim.visits.findIdx? fun vis => vis.backend = gwBackendId q.route q.rule).getD 0
+    let sg ← (match t.signin with | "-" => some false | "s" => some true | _ => none)
+    pure { base with url := ← gwUrl xns t.url, plc := ← plcOf t.plc, oauth := ← gwOAuth (pubAt vi) t.oauth, signin := sg }
+
+def gwBackendKey (b : Nat) : String :=
+  if b ≥ 100 then "r" ++ toString ((b - 100) / 10) ++ "u" ++ toString ((b - 100) % 10) else "s" ++ toString b
+
+def showGwPath (w : World) (st : St) (i : Nat) : String :=
+  match w.paths[i]? with
+  | none => ""
+  | some p => "K=" ++ gwBackendKey p.backend ++ "@" ++ p.key ++ ";" ++ showPath w st i
+
+def showGwState (w : World) (st : St) : String :=
+  let recs := sortStrs ((List.range w.paths.length).map (showGwPath w st))
+  (if recs.isEmpty then "-" else "|".intercalate recs) ++ "||" ++ showBinds st.binds
+
+/-- `K=<key>;<record>` -/
+def parseGwObs (s : String) : Option (String × Obs) :=
+  match s.splitOn ";" with
+  | k :: rest => do
+    let k ← field "K=" k
+    pure (k, ← parseObs (";".intercalate rest))
+  | _ => none
+
+def handleGw (glob gws svcs routes ings impl : String) : Verdict :=
+  match parseGlob glob with
+  | none => bad "gw-glob"
+  | some (x, l, xns, rs, re) =>
+    let gwl := (gws.splitOn "+").map String.toList
+    let svcl : Option (List GwSvcTok) := if svcs = "-" then some [] else (svcs.splitOn ",").mapM parseGwSvc
+    let rtl := (routes.splitOn ",").mapM parseGwRoute
+    let ingl : Option (List IngTok) := if ings = "-" then some [] else (ings.splitOn ",").mapM parseIng
+    match svcl, rtl, ingl with
+    | some svcl, some rtl, some ingl =>
+      if gwl.any (fun g => g.isEmpty || g.any fun c => !(c = 'a' || c = 'n' || c.isDigit)) then bad "gw-gateways" else
+      -- backend ids r<k>u<j> are one digit each
+      if rtl.length > 9 || rtl.any (fun r => r.rules.length > 9) then bad "gw-scope-too-many-routes-or-rules" else
+      let sim := simulate gwl rtl
+      let ngw := sim.paths.length
+      -- who serves /oauth2: one publisher at most, a route or an Ingress
+      let ingPub := (ingl.find? (·.path = 9)).bind fun g => (svcName g.svc).map fun n => "default_" ++ n ++ "_8080"
+      let gwPubFinal := (sim.paths.find? (·.path = 9)).map fun q => gwBackendName q.route q.rule
+      let pubAt (vi : Nat) : Option String := (sim.pubs[vi]?).join
+      let allKeys := sim.paths.map (fun q => (q.host, q.path)) ++ ingl.map (fun g => (g.host, g.path))
+      if !allKeys.Nodup then bad "gw-scope-duplicate-host-path" else
+      -- `findBackend` walks a Go map of hosts: every /oauth2 path must lead to the same backend
+      let pubNames := ((sim.paths.filter (·.path = 9)).map fun q => gwBackendName q.route q.rule) ++
+        (ingl.filter (·.path = 9)).filterMap fun g => (svcName g.svc).map fun n => "default_" ++ n ++ "_8080"
+      if pubNames.eraseDups.length > 1 then bad "gw-scope-two-oauth2-publishers" else
+      -- an Ingress path also reads the annotations of its Service: the control uses plain Services
+      if ingl.any (fun g => svcl.any (·.idx = g.svc)) then bad "gw-scope-ingress-on-annotated-service" else
+      match sim.paths.mapM (gwPathIn xns svcl pubAt sim),
+            ingl.mapM (fun g => (pathOf xns ingl g).bind fun p =>
+              (gwOAuth (gwPubFinal.orElse fun _ => ingPub) g.oauth).map fun o => { p with oauth := o }) with
+      | some gps, some ips =>
+        let w : World := { isExternal := x, hasLua := l, rangeStart := rs, rangeEnd := re, paths := gps ++ ips }
+        let ing := (List.range ips.length).map (· + ngw)
+        let origins := sim.paths.map (fun q => Origin.route q.mapped) ++ ips.map (fun _ => Origin.ingress)
+        let ihosts := (ips.map (·.host)).eraseDups
+        let ibacks := (ips.map (·.backend)).eraseDups
+        let outs := (perms ihosts).flatMap fun ho => (perms ibacks).map fun bo =>
+          showGwState w (gwSync currentAuthStep currentVariant w sim.visits ing ho bo)
+        let m := outs.headD ""
+        if impl = "PANIC" then { model := m, agree := false, oracle := some "panic-in-updater" } else
+        match impl.splitOn "||" with
+        | [ps, bs] =>
+          match (if ps = "-" then some [] else (ps.splitOn "|").mapM parseGwObs), parseBinds bs with
+          | some kobs, some binds =>
+            let agreeing := outs.find? (· = impl)
+            -- the observation of each model path, by key; a path the implementation does not have
+            -- is reported as a disagreement, the Spec is evaluated on what exists
+            let obsOfKey (p : PathIn) : Option Obs :=
+              (kobs.find? fun ko => ko.1 = gwBackendKey p.backend ++ "@" ++ p.key).map (·.2)
+            let triples := ((w.paths.zip origins).filterMap fun (p, og) => (obsOfKey p).map fun o => (p, og, o))
+            let wl : World := { w with paths := triples.map (·.1) }
+            { model := agreeing.getD m, agree := agreeing.isSome,
+              oracle := gwOracle wl binds (triples.map (·.2.1)) (triples.map (·.2.2)),
+              trivial := w.paths.all fun p => !declared p }
+          | _, _ => bad "impl-output"
+        | _ => bad "impl-output"
+      | _, _ => bad "gw-parse"
+    | _, _, _ => bad "gw-parse"
+
 /-! ### entry -/
 
 def handle (args : List String) (impl : String) : Verdict :=
@@ -479,6 +717,7 @@ def handle (args : List String) (impl : String) : Verdict :=
     if impl = "PANIC" then { model := "-", agree := false, oracle := some "panic-in-frontend" } else
     handleAlloc rs re ops impl
   | ["hist", glob, ings, ops] => handleHist glob ings ops impl
+  | ["gw", glob, gws, svcs, routes, ings] => handleGw glob gws svcs routes ings impl
   | [glob, ings] =>
     match parseWorld glob ings with
     | none => bad "parse"
